@@ -159,6 +159,10 @@ class Factory(object):
     def rec(self, kind, zid, **attrs):
         return SRec(zid, kind, attrs)
 
+    def anyset(self, name, pair_keys=False):
+        """a set about which nothing is known but membership (custom allow-lists)"""
+        return self.strmap(name, pair_keys=pair_keys)
+
     def symdict(self, pairs):
         """dict with the given (symbolic key, value) pairs, keys assumed pairwise distinct (bounded clauses)"""
         d = DictV()
